@@ -151,6 +151,18 @@ def extract(t_unit) -> KernelIR:
     return KernelIR(args, temps, stmts, bounds, substs, names)
 
 
+def _writer_counts(knl) -> dict:
+    cnt: dict = {}
+    for ins in knl.instructions:
+        try:
+            names = set(ins.assignee_var_names())
+        except Exception:   # noqa: BLE001
+            names = set()
+        for n in names:
+            cnt[n] = cnt.get(n, 0) + 1
+    return cnt
+
+
 def kernel_names(t_unit) -> dict:
     """the identifier categories of the entry kernel, read straight off the loopy objects (works for every kernel,
     also those `extract` does not interpret, e.g. kernels with call instructions)"""
@@ -161,6 +173,9 @@ def kernel_names(t_unit) -> dict:
         "inames": sorted(knl.all_inames()),
         "insn_ids": [i.id for i in knl.instructions],
         "substs": sorted(knl.substitutions),
+        # variables written by more than one instruction (pytato's kernels are single-assignment: two writers
+        # of one name are two objects merged under that name)
+        "multi_writers": sorted(n for n, c in _writer_counts(knl).items() if c > 1),
         "callees": sorted(n for n in t_unit.callables_table if n != knl.name and n in getattr(t_unit, "callables_table", {})
                           and type(t_unit.callables_table[n]).__name__ == "CallableKernel"),
     }
